@@ -470,6 +470,24 @@ func checkOptionHandler(c *Ctx, prefix string, fn *ssa.Function, sp optSpec) {
 			return
 		}
 		nExit++
+		// a loop that holds an emission (one iteration per requested code) must run to its end,
+		// unless everything this plugin can emit has been emitted already
+		for _, site := range order {
+			for _, hdr := range loopsWith(site) {
+				if !LeftLoopEarly(st, hdr) {
+					continue
+				}
+				all := true
+				for i := range sp.Rows {
+					if !st.seen["emit:"+sp.Rows[i].Name] {
+						all = false
+					}
+				}
+				if !all && len(exitBad) < 4 {
+					exitBad = append(exitBad, fmt.Sprintf("return at %s leaves the loop that examines the requested options before it ended: options requested later in the list are never considered", c.P.InstrPos(in)))
+				}
+			}
+		}
 		r0c, r1c := ex.Canon(st, ret.Results[0]).S, ex.Canon(st, ret.Results[1]).S
 		r0nil := r0c == "nil"
 		if n, _ := ex.NilState(st, ret.Results[0]); n == 1 {
